@@ -284,7 +284,9 @@ func (x *Exec) symValue(st *State, t types.Type, name string) Value {
 	case *types.Interface:
 		return &Opaque{typ: t, tag: name}
 	case *types.Map:
-		return &Opaque{typ: t, tag: name}
+		c := newCell(name, t)
+		st.store[c] = &SymMap{name: sanitize(name), vt: u.Elem()}
+		return &MapV{typ: t, cell: c, entries: map[string][2]Value{}}
 	}
 	return &Opaque{typ: t, tag: name}
 }
